@@ -3533,7 +3533,7 @@ func (t *Topic) notifySubChange(uid, actor types.Uid, isChan bool,
 			// Subscription un-muted.
 
 			// Notify subscriber of topic's online status.
-			if t.cat == types.TopicCatGrp && !isChan {
+			if (t.cat == types.TopicCatGrp && !isChan) || t.cat == types.TopicCatP2P {
 				t.presSingleUserOffline(uid, newWant&newGiven, "?unkn+en", nilPresParams, "", false)
 			} else if t.cat == types.TopicCatMe {
 				// User is visible online now, notify subscribers.
